@@ -20,7 +20,7 @@ MODES = ("dynpie", "static", "staticpie")
 SIGNAMES = {4: "SIGILL", 6: "SIGABRT", 7: "SIGBUS", 8: "SIGFPE", 9: "SIGKILL", 11: "SIGSEGV", 5: "SIGTRAP"}
 STAGE_AFTER = {None: "before-main-output", "L": "args_os", "O": "args_os", "l": "args", "A": "args", "a": "args",
                "U": "env-lookup", "V": "env-lookup", "v": "env-lookup", "k": "env-lookup", "G": "aux", "P": "aux",
-               "p": "resolve", "R": "resolve", "r": "resolve", "E": "vdso-or-reloc", "T": "vdso-or-reloc", "S": "end", "W": "env-lookup",
+               "p": "resolve", "R": "resolve", "r": "resolve", "E": "vdso-or-reloc", "T": "vdso-or-reloc", "S": "end", "W": "env-lookup", "H": "args-iterator-history", "h": "args-iterator-history",
                "B": "end"}
 MAX_VIOL_PER_SIG = 6
 ARG_BUDGET = 1_400_000      # bytes of argv+envp strings and pointers per launch (kernel limit: stack rlimit / 4)
@@ -399,10 +399,11 @@ def budget_ok(argv, envp):
 # ------------------------------------------------------------------------------------------------
 class Launch:
     __slots__ = ("mode", "prof", "exe", "path", "argv", "envp", "keys", "iters", "kind", "uid", "gid", "direct",
-                 "expect_secure", "expect_uid", "expect_gid", "idx", "timens")
+                 "expect_secure", "expect_uid", "expect_gid", "idx", "timens", "hist")
 
     def __init__(self, mode, prof, exe, argv, envp, keys, kind, iters=0, path=None, uid=None, gid=None,
                  direct=False, expect_secure=0, timens=None):
+        self.hist = []              # Iterator API histories: list of lists of (op, a, b)
         self.timens = timens        # (monotonic offset s, boottime offset s): run inside `unshare --time --fork`
         self.mode, self.prof, self.exe = mode, prof, exe
         self.path = path or exe
@@ -447,7 +448,8 @@ class Launch:
     def replay_obj(self):
         return {"mode": self.mode, "profile": self.prof, "kind": self.kind, "argv": [a.hex() for a in self.argv],
                 "envp": [e.hex() for e in self.envp], "keys": [k.hex() for k in self.keys], "iters": self.iters,
-                "uid": self.uid, "gid": self.gid, "direct": self.direct, "timens": list(self.timens) if self.timens else None}
+                "uid": self.uid, "gid": self.gid, "direct": self.direct, "timens": list(self.timens) if self.timens else None,
+                "hist": [[list(o) for o in h] for h in self.hist]}
 
 
 def base_mode(mode):
@@ -469,8 +471,167 @@ def expected_argv(argv):
     return [b""]
 
 
-def probe_input(keys, iters):
-    return b"C07I" + struct.pack("<II", iters, len(keys)) + b"".join(struct.pack("<I", len(k)) + k for k in keys)
+def probe_input(keys, iters, hist=()):
+    b = b"C07I" + struct.pack("<II", iters, len(keys)) + b"".join(struct.pack("<I", len(k)) + k for k in keys)
+    b += struct.pack("<I", len(hist))
+    for h in hist:
+        b += struct.pack("<I", len(h)) + b"".join(struct.pack("<BII", *o) for o in h)
+    return b
+
+
+# ------------------------------------------------------------------------------------------------
+# Iterator API histories over args_os() / args(): reference = the same history applied to a plain cursor over the argv
+# the driver passed
+(OP_NEXT, OP_NTH, OP_SKIP_TAKE, OP_STEP_TAKE, OP_TAKE, OP_LAST, OP_COUNT, OP_FOLD, OP_SKIP_NTH, OP_FRESH, OP_FOR_BREAK,
+ OP_SKIP_WHILE_LEN) = range(1, 13)
+OP_NAMES = {1: "next", 2: "nth", 3: "by_ref.skip(a).take(b)", 4: "by_ref.step_by(a).take(b)", 5: "by_ref.take(b)",
+            6: "by_ref.take(b).last", 7: "by_ref.take(b).count", 8: "by_ref.take(b).fold", 9: "by_ref.skip(a).nth(b)",
+            10: "fresh", 11: "for-loop over by_ref, break after b", 12: "next until len>=a (at most b)"}
+UMAX = 0xFFFFFFFF          # stands for usize::MAX in the probe
+M64 = (1 << 64) - 1
+
+
+def arg_desc(a, which):
+    """what the probe reports for one yielded item: (status, len, adler32, first byte)"""
+    import zlib
+    if which == 1 and not is_utf8(a):
+        return (2, 0, 1, 0)
+    return (1, len(a), zlib.adler32(a), a[0] if a else 0)
+
+
+class ArgCursor:
+    """reference iterator: a cursor over the descriptors of the expected argv"""
+
+    def __init__(self, descs):
+        self.d = descs
+        self.i = 0
+
+    def rem(self):
+        return len(self.d) - self.i
+
+    def nth(self, k):
+        if k < self.rem():
+            self.i += k
+            x = self.d[self.i]
+            self.i += 1
+            return [x]
+        self.i = len(self.d)
+        return []
+
+    def take(self, b):
+        n = min(b, self.rem())
+        out = self.d[self.i:self.i + n]
+        self.i += n
+        return out
+
+    def apply(self, op, a, b):
+        """-> (items, nums)"""
+        A = (1 << 64) - 1 if a == UMAX else a
+        if op == OP_NEXT:
+            return self.nth(0), []
+        if op == OP_NTH:
+            return self.nth(A), []
+        if op == OP_SKIP_TAKE:
+            if b == 0:
+                return [], []
+            if A >= self.rem():
+                self.i = len(self.d)
+                return [], []
+            self.i += A
+            return self.take(b), []
+        if op == OP_STEP_TAKE:
+            step = 1 if a == 0 else A
+            out = []
+            for j in range(b):
+                x = self.nth(0 if j == 0 else step - 1)
+                if not x:
+                    break
+                out += x
+            return out, []
+        if op == OP_TAKE:
+            return self.take(b), []
+        if op == OP_LAST:
+            return self.take(b)[-1:], []
+        if op == OP_COUNT:
+            return [], [len(self.take(b))]
+        if op == OP_FOLD:
+            h = 0
+            its = self.take(b)
+            for (st, ln, hs, _f) in its:
+                h = (((h << 7) | (h >> 57)) & M64) ^ hs ^ ln ^ (st << 56)
+            return [], [len(its), h]
+        if op == OP_SKIP_NTH:
+            return self.nth(A + b), []
+        if op == OP_FRESH:
+            self.i = 0
+            return [], []
+        if op == OP_FOR_BREAK:
+            return self.take(max(b, 1)), []
+        if op == OP_SKIP_WHILE_LEN:
+            out = []
+            for _ in range(b):
+                x = self.nth(0)
+                if not x:
+                    break
+                out += x
+                if x[0][1] >= a:
+                    break
+            return out, []
+        return [], []
+
+
+def gen_histories(r, argv, n):
+    """n seeded histories; parameters are chosen around the reference cursor's remaining count"""
+    descs = [arg_desc(a, 0) for a in argv]
+    argc = len(argv)
+    # the usual idioms first: pop the program name, then nth / skip / step_by
+    hs = [[(OP_NEXT, 0, 0), (OP_NTH, 0, 0), (OP_NTH, 0, 0)],
+          [(OP_NEXT, 0, 0), (OP_SKIP_TAKE, 1, argc + 5)],
+          [(OP_NEXT, 0, 0), (OP_STEP_TAKE, 2, argc + 5)],
+          [(OP_NEXT, 0, 0), (OP_NEXT, 0, 0), (OP_SKIP_NTH, 0, 0), (OP_TAKE, 0, argc + 5)]]
+    hs = hs[:max(1, min(n, 4))]
+    while len(hs) < n:
+        cur = ArgCursor(descs)
+        h = []
+        for j in range(r.randint(3, 12)):
+            rem = cur.rem()
+
+            def pick_k():
+                return max(0, r.choice([0, 0, 1, rem - 1, rem, rem + 1, rem // 2, r.randint(0, rem + 2), 2, 3]))
+
+            def pick_b():
+                return max(0, r.choice([0, 1, 2, rem, rem + 3, argc + 5, argc + 5, r.randint(0, argc + 5)]))
+            c = r.random()
+            if j == 0 and c < 0.6:
+                o = (OP_NEXT, 0, 0)
+            elif c < 0.18:
+                o = (OP_NEXT, 0, 0)
+            elif c < 0.36:
+                o = (OP_NTH, UMAX if r.random() < 0.05 else pick_k(), 0)
+            elif c < 0.48:
+                o = (OP_SKIP_TAKE, UMAX if r.random() < 0.04 else pick_k(), pick_b())
+            elif c < 0.60:
+                o = (OP_STEP_TAKE, UMAX if r.random() < 0.04 else max(1, pick_k()), pick_b())
+            elif c < 0.67:
+                o = (OP_TAKE, 0, pick_b())
+            elif c < 0.72:
+                o = (OP_LAST, 0, pick_b())
+            elif c < 0.77:
+                o = (OP_COUNT, 0, pick_b())
+            elif c < 0.82:
+                o = (OP_FOLD, 0, pick_b())
+            elif c < 0.90:
+                o = (OP_SKIP_NTH, pick_k(), min(pick_k(), 1000))
+            elif c < 0.93:
+                o = (OP_FRESH, 0, 0)
+            elif c < 0.97:
+                o = (OP_FOR_BREAK, 0, pick_b())
+            else:
+                o = (OP_SKIP_WHILE_LEN, r.choice([0, 1, 2, 8, 4096, 100000]), pick_b())
+            h.append(o)
+            cur.apply(*o)
+        hs.append(h)
+    return hs
 
 
 def parse_records(b):
@@ -495,7 +656,7 @@ def parse_records(b):
 def execute(lc, scratch, sysmon):
     d = os.path.join(scratch, "l%06d" % lc.idx)
     os.makedirs(d, exist_ok=True)
-    inp = probe_input(lc.keys, lc.iters)
+    inp = probe_input(lc.keys, lc.iters, lc.hist)
     res = {"log": None}
     try:
         if lc.direct:
@@ -554,6 +715,7 @@ class Judge:
         self.vdso_used = 0
         self.nsample_lookup = 0
         self.nsample_args = 0
+        self.nsample_hist = 0
         self.vdso_fallback = 0
 
     def viol(self, sig, lc, detail, key=None):
@@ -621,10 +783,93 @@ class Judge:
         dcell = cell if lc.mode in MODES else "link-variants"
         self.judge_args(lc, by, dcell)
         self.judge_lookups(lc, recs, dcell)
+        self.judge_histories(lc, recs)
         auxv = self.judge_aux(lc, by, cell)
         self.judge_resolve(lc, by, auxv, cell)
         self.judge_vdso(lc, by, res, cell)
         self.judge_reloc(lc, by, cell)
+
+    # --- Iterator API histories ---
+    def judge_histories(self, lc, recs):
+        ck = self.ck
+        if not lc.hist:
+            return
+        exp_argv = expected_argv(lc.argv)
+        argc = len(exp_argv)
+        descs = [[arg_desc(a, w) for a in exp_argv] for w in (0, 1)]
+        it = iter([(t, pl) for t, pl in recs if t in "Hh"])
+        nsteps = 0
+        for hidx, h in enumerate(lc.hist):
+            for which in (0, 1):
+                api = "args_os" if which == 0 else "args"
+                cur = ArgCursor(descs[which])
+                t, pl = next(it, (None, b""))
+                if t != "H" or len(pl) != 37 or struct.unpack_from("<IB", pl, 0) != (hidx, which):
+                    ck.note_inconclusive("iterator history records out of step (%s/%s)" % (lc.mode, lc.prof))
+                    return
+                broken = not self.check_len_hint(lc, api, h, -1, struct.unpack_from("<4Q", pl, 5), cur, argc)
+                for step, (op, a, b) in enumerate(h):
+                    t, pl = next(it, (None, b""))
+                    if t != "h" or len(pl) < 10 or pl[0] != op:
+                        ck.note_inconclusive("iterator history step record missing (%s/%s)" % (lc.mode, lc.prof))
+                        return
+                    if broken:
+                        continue        # states have diverged; the first difference of this history was reported
+                    if pl[1]:
+                        ck.note_inconclusive("iterator history output truncated in the probe")
+                        broken = True
+                        continue
+                    nitems, nnums = struct.unpack_from("<II", pl, 2)
+                    got_items = [struct.unpack_from("<BQQB", pl, 10 + 18 * i) for i in range(nitems)]
+                    got_nums = list(struct.unpack_from("<%dQ" % nnums, pl, 10 + 18 * nitems))
+                    rem_before = cur.rem()
+                    exp_items, exp_nums = cur.apply(op, a, b)
+                    nsteps += 1
+                    state = "fresh" if cur.i == 0 and rem_before == argc else "exhausted" if rem_before == 0 else "partly-consumed"
+                    kcls = ("max" if a == UMAX else "lt-rem" if a < rem_before else "eq-rem" if a == rem_before else "gt-rem") \
+                        if op in (OP_NTH, OP_SKIP_TAKE, OP_STEP_TAKE, OP_SKIP_NTH) else \
+                        ("b0" if b == 0 else "b-lt-rem" if b < rem_before else "b-ge-rem") if op not in (OP_NEXT, OP_FRESH) else "-"
+                    ck.note_distinct("iter/%s/%s/%s/%s" % (api, OP_NAMES[op].split(" ")[0], kcls, state))
+                    if got_items != [tuple(x) for x in exp_items] or got_nums[:-4] != exp_nums:
+                        broken = True
+                        runaway = len(got_items) > rem_before and len(got_items) > len(exp_items) and \
+                            (len(got_items) >= b > 0 or len(got_items) > argc)
+                        sig = "C07/args/iterator-does-not-terminate" if runaway else "C07/args/iterator-history-differs"
+                        self.viol(sig, lc, self.hist_detail(lc, api, h, step, rem_before, exp_items, exp_nums, got_items, got_nums[:-4]))
+                        continue
+                    if not self.check_len_hint(lc, api, h, step, got_nums[-4:], cur, argc):
+                        broken = True
+        ck.count("iterator_histories", len(lc.hist) * 2)
+        ck.count("iterator_steps_compared", nsteps)
+        ck.add_eval(nsteps)
+        if self.nsample_hist < 2 and argc >= 3 and lc.hist:
+            self.nsample_hist += 1
+            ck.sample({"what": "iterator history", "cell": "%s/%s" % (lc.mode, lc.prof), "argc": argc,
+                       "history": ["%s(a=%d,b=%d)" % (OP_NAMES[o], a, b) for o, a, b in lc.hist[-1]]}, key="hist/%d" % self.nsample_hist)
+
+    def hist_detail(self, lc, api, h, step, rem_before, exp_items, exp_nums, got_items, got_nums):
+        def show(items):
+            return ["%s len=%d adler=%#x first=%#x" % ("Ok" if s == 1 else "Err", ln, hs, f) for s, ln, hs, f in items[:12]]
+        return {"api": api, "history": ["%s(a=%s,b=%d)" % (OP_NAMES[o], "usize::MAX" if a == UMAX else a, b) for o, a, b in h],
+                "first_differing_step": step, "remaining_before_step": rem_before,
+                "expected_items": show(exp_items), "got_items": show(got_items), "expected_count": len(exp_items),
+                "got_count": len(got_items), "expected_nums": exp_nums, "got_nums": got_nums,
+                "argv_lengths": [len(a) for a in expected_argv(lc.argv)[:20]]}
+
+    def check_len_hint(self, lc, api, h, step, st, cur, argc):
+        """size_hint must bracket the true remaining count; len() must be the remaining count (ExactSizeIterator) -- the
+        code at the time of writing reports the TOTAL argc from len() whatever was consumed, which is tolerated (counted)."""
+        ln, lo, has_hi, hi = st
+        rem = cur.rem()
+        ok = lo <= rem and (not has_hi or hi >= rem) and ln in (rem, argc)
+        if ln != rem:
+            self.ck.count("iterator_len_reports_total_not_remaining")
+        if not ok:
+            self.viol("C07/args/iterator-len-or-size-hint-wrong", lc,
+                      {"api": api, "history": ["%s(a=%s,b=%d)" % (OP_NAMES[o], "usize::MAX" if a == UMAX else a, b) for o, a, b in h],
+                       "after_step": step, "remaining": rem, "argc": argc, "len": ln,
+                       "size_hint": [lo, hi if has_hi else None]})
+        return ok
 
     # --- argv ---
     def judge_args(self, lc, by, cell):
@@ -1101,6 +1346,9 @@ def plan(ck, bins, scratch):
             pass
     for i, lc in enumerate(launches):
         lc.idx = i
+        # Iterator API histories: many on the argv-shaped launches, a few everywhere else
+        nh = (24 if quick else 40) if lc.kind.startswith("argv-") else 2 if lc.direct else 5
+        lc.hist = gen_histories(vlib.rng(ck.seed, "c07-hist", lc.mode, lc.prof, i), expected_argv(lc.argv), nh)
     return launches
 
 
@@ -1138,6 +1386,7 @@ def run(ck, replay=None):
                         [bytes.fromhex(a) for a in rp["envp"]], [bytes.fromhex(a) for a in rp["keys"]], rp["kind"],
                         iters=rp.get("iters", 0), uid=rp.get("uid"), gid=rp.get("gid"), direct=rp.get("direct", False),
                         timens=tuple(rp["timens"]) if rp.get("timens") else None)
+            lc.hist = [[tuple(o) for o in h] for h in rp.get("hist", [])]
             launches = [lc]
         else:
             tp = time.time()
